@@ -1,5 +1,6 @@
 use vstd::prelude::*;
 use vstd::std_specs::cmp::*;
+use vstd::std_specs::ops::*;
 use std::hash::Hash;
 use core::cmp::Ordering;
 verus! {
@@ -8,6 +9,15 @@ global size_of usize == 8;
 // ================= countmin/value.rs as a Verus trait spec =================
 // (private::Sealed dropped; to_f64/from_f64/to_bytes/try_from_bytes are not used by the functions of this unit)
 pub open spec fn iabs(v: int) -> int { if v >= 0 { v } else { -v } }
+// float leaves of upper_bound: `v as f64`, `x.trunc() as T`, `E / num_buckets as f64`
+pub uninterp spec fn cm_to_f64(v: int) -> f64;
+pub uninterp spec fn cm_from_f64<T>(x: f64) -> int;
+pub uninterp spec fn rel_err_spec(nb: u32) -> f64;
+// Rust float arithmetic never traps, and `*` is a function of its operands
+#[verifier::external_body] pub proof fn axiom_f64_mul()
+  ensures forall|a: f64, b: f64| #[trigger] MulSpec::mul_req(a, b), <f64 as MulSpec>::obeys_mul_spec() {}
+// the additive error term of upper_bound: T::from_f64(relative_error() * total_weight.to_f64())
+pub open spec fn ub_err<T: CountMinValue>(nb: u32, total: int) -> int { cm_from_f64::<T>(rel_err_spec(nb).mul_spec(cm_to_f64(total))) }
 // float leaf: `(v as f64 * d).trunc() as T`
 pub uninterp spec fn decay_spec(v: int, d: f64) -> int;
 
@@ -23,6 +33,11 @@ pub trait CountMinValue: Copy + Ord {
     fn abs(self) -> (r: Self)
       requires Self::in_range(iabs(self.val()))
       ensures r.val() == iabs(self.val());
+    // float conversions (`self as f64`, `value.trunc() as T`): uninterpreted functions of the value
+    fn to_f64(self) -> (r: f64)
+      ensures r == cm_to_f64(self.val());
+    fn from_f64(value: f64) -> (r: Self)
+      ensures r.val() == cm_from_f64::<Self>(value);
 }
 pub trait UnsignedCountMinValue: CountMinValue {
     fn halve(self) -> (r: Self)
@@ -51,6 +66,8 @@ impl CountMinValue for u64 {
     const MAX: Self = u64::MAX;
     fn add(self, other: Self) -> (r: Self) { self + other }
     fn abs(self) -> (r: Self) { self }
+    #[verifier::external_body] fn to_f64(self) -> (r: f64) { self as f64 }
+    #[verifier::external_body] fn from_f64(value: f64) -> (r: Self) { value.trunc() as u64 }
 }
 impl CountMinValue for i64 {
     open spec fn val(self) -> int { self as int }
@@ -60,6 +77,8 @@ impl CountMinValue for i64 {
     const MAX: Self = i64::MAX;
     fn add(self, other: Self) -> (r: Self) { self + other }
     fn abs(self) -> (r: Self) { if self >= 0 { self } else { -self } }
+    #[verifier::external_body] fn to_f64(self) -> (r: f64) { self as f64 }
+    #[verifier::external_body] fn from_f64(value: f64) -> (r: Self) { value.trunc() as i64 }
 }
 proof fn lemma_law_u64() ensures cm_law::<u64>(), unsigned_law::<u64>() {}
 proof fn lemma_law_i64() ensures cm_law::<i64>() {}
@@ -208,13 +227,16 @@ proof fn lemma_cell_surj(i: int, nh: int, nb: int)
 const DEFAULT_UPDATE_SEED : u64 = 9001 ;
 
 
+
 const MAX_TABLE_ENTRIES : usize = 1 << 30 ;
+
 
 
 
 
 struct CountMinSketch < T : CountMinValue > {
 num_hashes : u8 , num_buckets : u32 , seed : u64 , seed_hash : u16 , total_weight : T , counts : Vec < T > , hash_seeds : Vec < u64 > , }
+
 
 
 
@@ -255,6 +277,7 @@ let ( h1 , _ ) = hasher . finish128 ( ) ;
 ( h1 % self . num_buckets as u64 ) as usize }
 
 
+
     fn make ( num_hashes : u8 , num_buckets : u32 , seed : u64 , entries : usize ) -> ( r : Self ) requires cm_law :: < T > ( ) , num_hashes >= 1 , num_buckets >= 3 , entries == ( num_hashes as int ) * ( num_buckets as int ) , entries < MAX_TABLE_ENTRIES , seed_hash_spec ( seed ) != 0 , ensures r . wf ( ) , r . num_hashes == num_hashes , r . num_buckets == num_buckets , r . seed == seed ,
 /*@C18.cm_fixed_size*/ r . counts @ . len ( ) == num_hashes as int * num_buckets as int ,
 /*@C08.empty_model*/ r . models ( Seq :: < Ev > :: empty ( ) ) , {
@@ -274,10 +297,12 @@ num_hashes , num_buckets , seed , seed_hash , total_weight : T :: ZERO , counts 
 
 
 
+
     fn new ( num_hashes : u8 , num_buckets : u32 ) -> ( r : Self ) requires cm_law :: < T > ( ) , num_hashes > 0 , num_buckets >= 3 , ( num_hashes as int ) * ( num_buckets as int ) < MAX_TABLE_ENTRIES , seed_hash_spec ( DEFAULT_UPDATE_SEED ) != 0 , ensures r . wf ( ) , r . num_hashes == num_hashes , r . num_buckets == num_buckets , r . seed == DEFAULT_UPDATE_SEED ,
 /*@C18.cm_fixed_size*/ r . counts @ . len ( ) == ( num_hashes as int ) * ( num_buckets as int ) ,
 /*@C08.empty_model*/ r . models ( Seq :: < Ev > :: empty ( ) ) , {
 Self :: with_seed ( num_hashes , num_buckets , DEFAULT_UPDATE_SEED ) }
+
 
 
 
@@ -289,8 +314,10 @@ Self :: make ( num_hashes , num_buckets , seed , entries ) }
 
 
 
+
     fn num_hashes ( & self ) -> ( r : u8 ) ensures r == self . num_hashes , {
 self . num_hashes }
+
 
 
 
@@ -299,13 +326,16 @@ self . num_buckets }
 
 
 
+
     fn seed ( & self ) -> ( r : u64 ) ensures r == self . seed , {
 self . seed }
 
 
 
+
     fn is_empty ( & self ) -> ( r : bool ) requires cm_law :: < T > ( ) , ensures r == ( self . total_weight . val ( ) == 0 ) , {
 self . total_weight == T :: ZERO }
+
 
 
 
@@ -320,6 +350,7 @@ self . update_with_weight ( item , T :: ONE ) ;
 
 
 
+
     fn lower_bound < I : Hash > ( & self , item : I ) -> ( r : T ) requires self . wf ( ) , ensures
 /*@C08.one_sided*/ forall | h : Seq < Ev > | # [ trigger ] self . models ( h ) && nonneg ( h ) ==> truth ( h , item_key ( item ) ) <= r . val ( ) <= total ( h ) , {
 self . estimate ( item ) }
@@ -327,9 +358,31 @@ self . estimate ( item ) }
 
 
 
+
+    // float-only formula (e / num_buckets): opaque, ASSUMED only to be a function of num_buckets
+    #[verifier::external_body]
+    fn relative_error(&self) -> (r: f64)
+      ensures r == rel_err_spec(self.num_buckets)
+    { unimplemented!() }
+
+    // integer part of upper_bound: the estimate plus the error term; the `add` must fit the counter type
+    fn upper_bound < I : Hash > ( & self , item : I ) -> ( r : T ) requires self . wf ( ) ,
+/*@C17.cm_upper_bound_fits*/ forall | j : int | 0 <= j < self . num_hashes ==> T :: in_range ( # [ trigger ] self . row_val ( item_key ( item ) , j ) + ub_err :: < T > ( self . num_buckets , self . total_weight . val ( ) ) ) , ensures
+/*@C08.upper_bound_is_estimate_plus_error*/ forall | j : int | 0 <= j < self . num_hashes ==> r . val ( ) <= # [ trigger ] self . row_val ( item_key ( item ) , j ) + ub_err :: < T > ( self . num_buckets , self . total_weight . val ( ) ) ,
+/*@C08.upper_bound_is_estimate_plus_error*/ exists | j : int | 0 <= j < self . num_hashes && r . val ( ) == # [ trigger ] self . row_val ( item_key ( item ) , j ) + ub_err :: < T > ( self . num_buckets , self . total_weight . val ( ) ) ,
+/*@C08.one_sided*/ forall | h : Seq < Ev > | # [ trigger ] self . models ( h ) && nonneg ( h ) ==> truth ( h , item_key ( item ) ) + ub_err :: < T > ( self . num_buckets , total ( h ) ) <= r . val ( ) , {
+let estimate = self . estimate ( item ) ;
+proof {
+axiom_f64_mul ( ) ;
+}
+let error = T :: from_f64 ( self . relative_error ( ) * self . total_weight . to_f64 ( ) ) ;
+estimate . add ( error ) }
+
+
     fn total_weight ( & self ) -> ( r : T ) ensures
 /*@C08.total_exact*/ forall | h : Seq < Ev > | # [ trigger ] self . models ( h ) ==> r . val ( ) == total ( h ) , {
 self . total_weight }
+
 
 
 
@@ -389,6 +442,7 @@ lemma_push ( h , Ev :: Upd ( item_key ( item ) , weight . val ( ) ) ) ;
 
 
 
+
     fn estimate < I : Hash > ( & self , item : I ) -> ( min : T ) requires self . wf ( ) , ensures
 /*@C08.estimate_min*/ forall | r : int | 0 <= r < self . num_hashes ==> min . val ( ) <= # [ trigger ] self . row_val ( item_key ( item ) , r ) ,
 /*@C08.estimate_min*/ exists | r : int | 0 <= r < self . num_hashes && min . val ( ) == # [ trigger ] self . row_val ( item_key ( item ) , r ) ,
@@ -430,6 +484,7 @@ min }
 
 
 
+
     fn merge ( & mut self , other : & CountMinSketch < T > ) requires old ( self ) . wf ( ) , other . wf ( ) , old ( self ) . num_hashes == other . num_hashes , old ( self ) . num_buckets == other . num_buckets , old ( self ) . seed == other . seed , T :: in_range ( old ( self ) . total_weight . val ( ) + other . total_weight . val ( ) ) , forall | i : int | 0 <= i < old ( self ) . counts @ . len ( ) ==> # [ trigger ] fits ( old ( self ) . counts @ [ i ] , other . counts @ [ i ] ) , ensures final ( self ) . wf ( ) ,
 /*@C18.cm_fixed_size*/ final ( self ) . same_config ( old ( self ) ) ,
 /*@C08.merge_cells*/ forall | i : int | 0 <= i < old ( self ) . counts @ . len ( ) ==> # [ trigger ] final ( self ) . counts @ [ i ] . val ( ) == old ( self ) . counts @ [ i ] . val ( ) + other . counts @ [ i ] . val ( ) ,
@@ -464,6 +519,7 @@ lemma_concat_upd ( h1 , h2 , 0 , 0 , self . num_buckets ) ;
 
 
 
+
 }
 
 impl<T: UnsignedCountMinValue> CountMinSketch<T> {
@@ -489,6 +545,7 @@ lemma_cell_bound ( r , b , self . num_hashes as int , self . num_buckets as int 
 }
 }
 }
+
 
 
 
@@ -519,6 +576,7 @@ lemma_cell_bound ( r , b , self . num_hashes as int , self . num_buckets as int 
 
 
 
+
 }
 
 // hash leaves (C16): contracts define the spec functions
@@ -542,6 +600,7 @@ assert ( num_hashes as int * num_buckets as int <= 255 * 0xffff_ffff ) by ( nonl
 let entries = ( num_hashes as usize ) . checked_mul ( num_buckets as usize ) . expect ( "" ) ;
 assert! ( entries < MAX_TABLE_ENTRIES ) ;
 entries }
+
 
 
 
